@@ -40,7 +40,7 @@ class TLCResult:
         res = []
         body = "\n".join(ln for ln in self.out.splitlines() if not ln.startswith("@!@!@"))
         for chunk in tlaval.balanced_chunks(body):
-            if chunk.startswith('<<"' + tag + '"'):
+            if re.match(r'<<\s*"' + re.escape(tag) + '"', chunk):
                 try:
                     res.append(tlaval.parse(chunk))
                 except tlaval.ParseError:
